@@ -21,15 +21,8 @@ from common import nets
 logging.disable(logging.CRITICAL)
 
 ID = 'C18'
-N = {'quick': 420, 'thorough': 14000}
+N = {'quick': 420, 'thorough': 9000}
 LEAN_MODULES = ['GnpyProofs.Props.C18']
-# The model follows the code. /repo still has the findings F6 and F7 (DESIGN.md section 6); once the proposed repairs
-# (grp-H report) are committed there, set this to True: the correspondence then uses the repaired model functions
-# (Gnpy.Yang.legacyToYangFixed / yangToLegacyFixed) and the two `open:` lines of known_findings.txt become `fixed:`.
-import os as _os
-CODE_HAS_F6_F7_REPAIR = _os.environ.get('VERIF_C18_REPAIRED') == '1'
-OP_TO_YANG = 'c18.to_yang_fixed' if CODE_HAS_F6_F7_REPAIR else 'c18.to_yang'
-OP_TO_LEGACY = 'c18.to_legacy_fixed' if CODE_HAS_F6_F7_REPAIR else 'c18.to_legacy'
 THEOREMS = ([f'Gnpy.Round.{t}' for t in ('fmt_error_bound', 'fmt_fixpoint', 'fmt_exact')]
             + [f'Gnpy.Yang.{t}' for t in (
                 'none_empty_inverse', 'none_to_empty_idempotent', 'convert_dict_idempotent', 'range_roundtrip',
@@ -37,7 +30,8 @@ THEOREMS = ([f'Gnpy.Round.{t}' for t in ('fmt_error_bound', 'fmt_fixpoint', 'fmt
                 'degree_to_yang_idempotent', 'design_band_to_yang_idempotent', 'range_to_yang_idempotent',
                 'loss_coef_to_yang_idempotent', 'design_band_to_legacy_idempotent', 'loss_coef_to_legacy_idempotent',
                 'range_to_legacy_idempotent',
-                'delta_power_range_fails_current', 'delta_power_range_fixed_witness', 'raman_efficiency_fails_current',
+                'delta_power_range_roundtrip_witness', 'delta_power_range_fails_old', 'raman_efficiency_back_spelling',
+                'raman_efficiency_roundtrip_witness', 'raman_efficiency_fails_old',
                 'alias_entries', 'alias_fails_pre_fix')])
 RULE = ('documents of the five kinds (topology, equipment, services, spectrum, sim-params) generated from one PRNG with '
         'every field the loaders know: per-degree targets of the three kinds, design bands, per-frequency loss, lumped '
@@ -500,10 +494,21 @@ def trx_mode(g, name):
 NF_TUPLES = [(26, 15, 6, 10), (16, 8, 6.5, 11), (35, 25, 5.5, 7), (25, 15, 6, 10)]
 
 
+_RAW = {}
+
+
+def shipped_json(name):
+    """a shipped example document exactly as it is on disk (never through the loader under test)"""
+    if name not in _RAW:
+        with open(nets.EX / name, encoding='utf-8') as fh:
+            _RAW[name] = json.load(fh)
+    return copy.deepcopy(_RAW[name])
+
+
 def gen_equipment(g):
     """a library derived from the shipped one (so that every reference resolves) with generated entries of each kind"""
     rng = g.rng
-    base = nets.eqpt_json('eqpt_config.json')
+    base = shipped_json('eqpt_config.json')
     doc = {}
     # --- Edfa: keep the shipped entries the generated ones refer to, add generated ones
     edfa = [e for e in base['Edfa'] if e['type_variety'] in ('std_medium_gain', 'std_low_gain', 'std_fixed_gain', '4pumps_raman')]
@@ -543,7 +548,7 @@ def gen_equipment(g):
             e['other_name'] = [f'gen_{kind}_{i} alias {j}' for j in range(rng.randint(1, 3))]
         edfa.append(shuffled(rng, e, ('type_variety',)))
     if rng.random() < 0.4:
-        edfa += [e for e in nets.eqpt_json('eqpt_config_multiband.json')['Edfa']
+        edfa += [e for e in shipped_json('eqpt_config_multiband.json')['Edfa']
                  if e['type_variety'] in ('std_medium_gain_C', 'std_medium_gain_L', 'std_medium_gain_multiband')]
     rng.shuffle(edfa)
     doc['Edfa'] = edfa
@@ -746,6 +751,14 @@ def gen_simparams(g):
     return doc
 
 
+SHIPPED = [('eqpt_config.json', 'equipment'), ('eqpt_config_multiband.json', 'equipment'),
+           ('eqpt_config_openroadm_ver5.json', 'equipment'),
+           ('meshTopologyExampleV2.json', 'topology'), ('multiband_example_network.json', 'topology'),
+           ('raman_edfa_example_network.json', 'topology'), ('edfa_example_network.json', 'topology'),
+           ('meshTopologyExampleV2_services.json', 'services'), ('service_pluggable.json', 'services'),
+           ('sim_params.json', 'simparams'), ('initial_spectrum1.json', 'spectrum'), ('initial_spectrum2.json', 'spectrum'),
+           ('multiband_spectrum.json', 'spectrum')]
+
 GENS = {'topology': gen_topology, 'equipment': gen_equipment, 'services': gen_services, 'spectrum': gen_spectrum,
         'simparams': gen_simparams}
 
@@ -781,6 +794,9 @@ def gen(rng, tier, widen=False):
         return gen_fmt(rng, widen)
     if k < 0.14:
         return gen_alias(rng)
+    if k < 0.19:
+        name, kind = rng.choice(SHIPPED)
+        return {'kind': kind, 'doc': shipped_json(name), 'style': 'shipped', 'shipped': name}
     kind = rng.choice(['topology', 'topology', 'equipment', 'equipment', 'services', 'spectrum', 'simparams'])
     g = G(rng, widen)
     doc = GENS[kind](g)
@@ -1039,8 +1055,11 @@ def _benign_added(path, k, v):
     return path == ('Roadm',) and k == 'type_variety' and v == 'default'
 
 
-F6 = 'F6-delta-power-range-second-entry'
-F7 = 'F7-raman-efficiency-roundtrip'
+# F6 (second SI/Span entry not converted back) and F7 (raman_efficiency lost on the way back) were findings of this check;
+# both are repaired in /repo (f4882f89, df307dac).  Their witnesses stay in corpus/C18 as regression cases and every
+# failure is reported as unlisted again.
+F6 = 'unlisted'
+F7 = 'unlisted'
 _F6_RE = re.compile(r'^(/gnpy-eqpt-config:equipment)?/(SI\[[1-9]\d*\]/power_range(_dict)?_db|Span\[[1-9]\d*\]/delta_power_range(_dict)?_db)\b')
 _F7_RE = re.compile(r'^(/gnpy-eqpt-config:equipment)?/RamanFiber\[\d+\]/raman_(efficiency|coefficient)\b')
 
@@ -1177,9 +1196,13 @@ def run_doc(case, drv):
             res.fail(f'declared digits: {k} is declared with {v} fraction digits, precision_dict says {PRECISION_DICT.get(k)}')
     # --- legacy -> YANG
     y, yerr = _impl(legacy_to_yang, d)
-    my, myerr = _model(drv, OP_TO_YANG, d)
+    my, myerr = _model(drv, 'c18.to_yang', d)
     _cmp_conv(res, 'legacy_to_yang', y, yerr, my, myerr)
+    if case.get('shipped'):
+        res.stats['shipped_example_files'] += 1
     if yerr is not None:
+        if case.get('shipped'):
+            res.fail(f'shipped example: {case["shipped"]} is refused by legacy_to_yang ({yerr})')
         res.stats[f'rejected_by_converter_{yerr}'] += 1
         res.stats['malformed'] += 1
         # the loader must refuse it too (it runs the same conversion first)
@@ -1194,6 +1217,8 @@ def run_doc(case, drv):
         return res
     l, lerr = safe_y2l(y)
     if verr is not None:
+        if case.get('shipped'):
+            res.fail(f'shipped example: libyang refuses the YANG form of {case["shipped"]}')
         res.stats['malformed'] += 1
         res.stats[f'rejected_by_libyang_{case.get("damage", "generated")}'] += 1
         if lerr is None:
@@ -1205,7 +1230,7 @@ def run_doc(case, drv):
     res.stats['accepted'] += 1
     if case.get('damage'):
         res.stats[f'damage_accepted_{case["damage"]}'] += 1
-    ml, mlerr = _model(drv, OP_TO_LEGACY, y)
+    ml, mlerr = _model(drv, 'c18.to_legacy', y)
     _cmp_conv(res, 'yang_to_legacy', l, lerr, ml, mlerr)
     if lerr is not None:
         res.fail(f'accepted document cannot be converted back: yang_to_legacy raises {lerr}')
@@ -1213,17 +1238,17 @@ def run_doc(case, drv):
     # --- second passes (idempotence), implementation and model
     y2, y2err = _impl(legacy_to_yang, y)
     y2msg = LAST_MSG[0]
-    _cmp_conv(res, 'legacy_to_yang(yang)', y2, y2err, *_model(drv, OP_TO_YANG, y))
+    _cmp_conv(res, 'legacy_to_yang(yang)', y2, y2err, *_model(drv, 'c18.to_yang', y))
     l2, l2err = safe_y2l(l)
     l2msg = LAST_MSG[0]
-    _cmp_conv(res, 'yang_to_legacy(legacy)', l2, l2err, *_model(drv, OP_TO_LEGACY, l))
+    _cmp_conv(res, 'yang_to_legacy(legacy)', l2, l2err, *_model(drv, 'c18.to_legacy', l))
     y3, y3err = _impl(legacy_to_yang, l)
     y3msg = LAST_MSG[0]
-    _cmp_conv(res, 'legacy_to_yang(roundtrip)', y3, y3err, *_model(drv, OP_TO_YANG, l))
+    _cmp_conv(res, 'legacy_to_yang(roundtrip)', y3, y3err, *_model(drv, 'c18.to_yang', l))
     # the loader path on the legacy form itself (what load_gnpy_json does with a legacy file)
     l0, l0err = safe_y2l(d)
     l0msg = LAST_MSG[0]
-    _cmp_conv(res, 'yang_to_legacy(original)', l0, l0err, *_model(drv, OP_TO_LEGACY, d))
+    _cmp_conv(res, 'yang_to_legacy(original)', l0, l0err, *_model(drv, 'c18.to_legacy', d))
     # --- monitor: idempotence
     def idem(what, got, err, want, msg):
         if err is not None:
@@ -1349,12 +1374,12 @@ def run_loaders(res, kind, d, l):
     try:
         a = build(dr)
         aerr = None
-    except GnpyErrors as e:
+    except GnpyErrors + (KeyError,) as e:      # KeyError: a reference the library does not resolve (both forms alike)
         a, aerr = None, err_kind(e)
     try:
         b = build(l)
         berr = None
-    except GnpyErrors as e:
+    except GnpyErrors + (KeyError,) as e:
         b, berr = None, err_kind(e)
     res.stats[f'loader_{kind}_{"ok" if aerr is None else aerr}'] += 1
     if aerr is not None or berr is not None:
@@ -1438,7 +1463,7 @@ def run_alias(case, drv):
     from gnpy.tools.json_io import _equipment_from_json, DEFAULT_EXTRA_CONFIG
     res = Result()
     what, entry = case['what'], case['entry']
-    base = nets.eqpt_json('eqpt_config.json')
+    base = shipped_json('eqpt_config.json')
     doc = {k: v for k, v in base.items() if k != what}
     doc[what] = [copy.deepcopy(entry)]
     if what == 'Transceiver':
